@@ -148,6 +148,12 @@ def exhaustive(tier):
             for levels, fenv in (([True], None), ([None, True], None), ([None], "CCV_NAMED")):
                 yield {"levels": list(levels), "fenv": fenv, "node": nd, "var": text, "var2": texts[(texts.index(text) + 1) % len(texts)], "sibling_var": None, "decl": "explicit",
                        "ops": [{"op": "load_tree", "value": None, "with_sibling": True}]}
+    # schema prefixes that end in or contain underscores: the variable is PREFIX + "_" + KEY all the same
+    for levels in (["CCVU_"], ["CCVU_", None], [True, "CCVU_"], ["CCVU_", "CCVW__"], [None, "CCVU_", None], ["CCV_MID_DLE", None]):
+        for fenv in FIELD_ENVS:
+            for var in (None, "42", "1000"):
+                yield {"levels": list(levels), "fenv": fenv, "node": node, "var": var, "var2": "43", "sibling_var": None, "decl": "explicit",
+                       "ops": [{"op": "load_tree", "value": 7, "with_sibling": True}, {"op": "assign", "value": 9, "how": "setattr"}]}
     for depth in (1, 2, 3):
         for levels in itertools.product(SCHEMA_ENVS, repeat=depth):
             for fenv in FIELD_ENVS:
